@@ -86,6 +86,14 @@ contract(f"{ES}::TunnelExitSocket.is_allowed", "is_allowed==allowed_spec",
          raises=[],
          covers=["result == True", "result == False"])
 
+# ... for EVERY packet, whatever was classified before it (history of two packets: no verdict is remembered between packets)
+contract(f"{ES}::TunnelExitSocket.is_allowed", "is_allowed.second-packet-is-classified-on-its-own-bytes",
+         vars={"self": sock(), "first": BYTES, "data": BYTES},
+         call="(self.is_allowed(first), self.is_allowed(data))",
+         ensures=["result[1] == allowed_spec(EXIT_BT in self.overlay.settings.peer_flags, "
+                  "EXIT_IPV8 in self.overlay.settings.peer_flags, self.overlay._prefix, data)"],
+         raises=[], note="two packets that share a header are still two decisions")
+
 # ---------------------------------------------------------------------------------------------------------------------
 # emission path: both directions pass the policy gate
 
